@@ -37,20 +37,20 @@ namespace terminal {
 
 using namespace std;
 
-bool Terminal::Impl::execute(SessionContext *s)
+bool Terminal::Impl::execute(SessionContext *s, bool is_history_rerun)
 {
     std::vector<std::string> cmdlines;
     util::string::Split(s->curr_input, ";", cmdlines);
 
     for (auto &cmdline : cmdlines) {
-        if (!executeCmd(s, cmdline))
+        if (!executeCmd(s, cmdline, is_history_rerun))
             return false;
     }
 
     return true;
 }
 
-bool Terminal::Impl::executeCmd(SessionContext *s, const std::string &cmdline)
+bool Terminal::Impl::executeCmd(SessionContext *s, const std::string &cmdline, bool is_history_rerun)
 {
     if (cmdline.empty())
         return false;
@@ -80,7 +80,7 @@ bool Terminal::Impl::executeCmd(SessionContext *s, const std::string &cmdline)
     } else if (cmd == "tree") {
         executeTreeCmd(s, args);
     } else if (cmd[0] == '!') {
-        return executeRunHistoryCmd(s, args);
+        return executeRunHistoryCmd(s, args, is_history_rerun);
     } else {
         executeUserCmd(s, args);
     }
@@ -339,8 +339,14 @@ void Terminal::Impl::executePwdCmd(SessionContext *s, const Args &)
     s->wp_conn->send(s->token, ss.str());
 }
 
-bool Terminal::Impl::executeRunHistoryCmd(SessionContext *s, const Args &args)
+bool Terminal::Impl::executeRunHistoryCmd(SessionContext *s, const Args &args, bool is_history_rerun)
 {
+    //! a history line that itself refers to the history would re-run without end
+    if (is_history_rerun) {
+        s->wp_conn->send(s->token, "Error: recursive history command.\r\n");
+        return false;
+    }
+
     string sub_cmd = args[0].substr(1);
     if (sub_cmd == "!") {
         if (s->history.empty()) {
@@ -349,7 +355,7 @@ bool Terminal::Impl::executeRunHistoryCmd(SessionContext *s, const Args &args)
         }
         s->curr_input = s->history.back();
         s->cursor = s->curr_input.size();   //! the cursor belongs to the replaced line
-        return execute(s);
+        return execute(s, true);
     }
 
     try {
@@ -371,7 +377,7 @@ bool Terminal::Impl::executeRunHistoryCmd(SessionContext *s, const Args &args)
         if (is_index_valid) {
             s->cursor = s->curr_input.size();   //! the cursor belongs to the replaced line
             s->wp_conn->send(s->token, s->curr_input + "\r\n");
-            return execute(s);
+            return execute(s, true);
         } else
             s->wp_conn->send(s->token, "Error: index out of range.\r\n");
     } catch (const invalid_argument &e) {
